@@ -23,6 +23,21 @@ Theorem C10_split_concat : forall (A : Type) (p : nat) (l : list A),
 Proof. intros A p l Hp. split; [exact (split_concat p l Hp)|exact (split_length p l Hp)]. Qed.
 Print Assumptions C10_split_concat.
 
+(* every chunk but the last is full: no more calls than ceil(len/k) are made *)
+Theorem C10_chunks_full : forall (A : Type) (k : nat) (l : list A),
+  1 <= k -> Forall (fun c => length c = k) (removelast (chunks k l)).
+Proof. exact @chunks_full. Qed.
+Print Assumptions C10_chunks_full.
+
+(* the pieces handed to the pool have exactly numpy's sizes: the first (len mod p) of len/p + 1,
+   the remaining ones of len/p; in particular the work is balanced to within one point *)
+Theorem C10_split_shape : forall (A : Type) (p : nat) (l : list A),
+  1 <= p ->
+  map (@length A) (split_n p l) = split_sizes p (length l)
+  /\ Forall (fun c => length l / p <= length c <= S (length l / p)) (split_n p l).
+Proof. intros A p l Hp. split; [exact (split_shape p l Hp)|exact (split_balanced p l Hp)]. Qed.
+Print Assumptions C10_split_shape.
+
 (* every decision tree accepted by the checker computes map f, for every function,
    every vectorised twin that agrees with it, every order-preserving pool map,
    every input list (including the empty one), every chunk size, every pool size >= 1 *)
